@@ -233,22 +233,32 @@ def run_cli(tmpdir, k, blocks, names, case):
                 if o.get("header"):
                     f.write("## pairs format v1.0\n#columns: readID chr1 pos1 chr2 pos2\n")
                 for i, r in enumerate(recs):
-                    f.write(f"r{i}\t{nm(r[0])}\t{r[1]}\t{nm(r[3])}\t{r[4]}\n")
-            args = ["cload", "pairs", "-c1", "2", "-p1", "3", "-c2", "4", "-p2", "5", "--chunksize", str(csz)]
+                    if o.get("d8"):    # regression D8 (repaired): field numbers in non-ascending order
+                        f.write(f"{r[4]}\t{nm(r[3])}\tr{i}\t{r[1]}\t{nm(r[0])}\n")
+                    else:
+                        f.write(f"r{i}\t{nm(r[0])}\t{r[1]}\t{nm(r[3])}\t{r[4]}\n")
+            fields = ["-c1", "5", "-p1", "4", "-c2", "2", "-p2", "1"] if o.get("d8") else ["-c1", "2", "-p1", "3", "-c2", "4", "-p2", "5"]
+            args = ["cload", "pairs"] + fields + ["--chunksize", str(csz)]
             if not o["one_based"]:
                 args.append("--zero-based")
         elif case["fn"] == "load_bg2":
             with open(inp, "w") as f:
                 for r, v in zip(recs, [v for vs in case["values"] for v in vs]):
-                    f.write(f"{nm(r[0])}\t{r[1]}\t{r[2]}\t{nm(r[3])}\t{r[4]}\t{r[5]}\t{v}\n")
-            args = ["load", "-f", "bg2", "--chunksize", str(csz)]
+                    if o.get("d8"):
+                        f.write(f"{nm(r[0])}\t{r[1]}\t{r[2]}\t{nm(r[3])}\t{r[4]}\t{r[5]}\t77\t{v}\n")
+                    else:
+                        f.write(f"{nm(r[0])}\t{r[1]}\t{r[2]}\t{nm(r[3])}\t{r[4]}\t{r[5]}\t{v}\n")
+            args = ["load", "-f", "bg2", "--chunksize", str(csz)] + (["--field", "count=8"] if o.get("d8") else [])
             if o["one_based"]:
                 args.append("--one-based")
         else:
             with open(inp, "w") as f:
                 for r in recs:
-                    f.write(f"{r[0]}\t{r[1]}\t{r[4]}\n")
-            args = ["load", "-f", "coo", "--chunksize", str(csz)]
+                    if o.get("d8"):
+                        f.write(f"{r[0]}\t{r[1]}\t{r[4]}\t55\t{r[4] + 100}\n")
+                    else:
+                        f.write(f"{r[0]}\t{r[1]}\t{r[4]}\n")
+            args = ["load", "-f", "coo", "--chunksize", str(csz)] + (["--field", "foo=5", "--field", "count=3"] if o.get("d8") else [])
             if o["one_based"]:
                 args.append("--one-based")
         if o["tril"] == "drop":
@@ -477,7 +487,8 @@ def gen_cli_cases(rng, widths, n_runs):
         fn = rng.choice(["cload_pairs", "cload_pairs", "load_bg2", "load_coo"])
         ob = rng.randint(0, 1)
         ta = rng.choice(["reflect", "reflect", "drop", None])
-        opts = {"one_based": ob, "tril": ta, "ideal_b": widths[0][0] if (is_ideal(widths) and rng.random() < 0.5) else None, "header": rng.random() < 0.5}
+        opts = {"one_based": ob, "tril": ta, "ideal_b": widths[0][0] if (is_ideal(widths) and rng.random() < 0.5) else None, "header": rng.random() < 0.5,
+                "d8": rng.random() < 0.3}
         m = rng.choice([2, 4, 7, 10])
         label = "valid"
         if fn == "load_coo":
@@ -575,6 +586,12 @@ CLI_CORPUS = [
      "chunks": [[[0, 1, 3, 1, 5, 8], [1, 5, 8, 0, 1, 3], [2, 5, 5, 2, 1, 5]], [[2, 6, 6, 0, 1, 3]]], "values": [[3, 4, 5], [6]], "label": "cli:load_bg2:out"},
     {"fn": "load_coo", "widths": [[3, 3, 2], [4, 4], [5]], "opts": {"one_based": 1, "tril": "reflect", "ideal_b": None, "header": False},
      "chunks": [[[1, 1, 0, 0, 5], [6, 2, 0, 0, 7]], [[3, 6, 0, 0, 2], [2, 6, 0, 0, 1]]], "label": "cli:load_coo:valid"},
+    {"fn": "cload_pairs", "widths": [[10, 10], [10, 10, 5], [7]], "opts": {"one_based": 1, "tril": "reflect", "ideal_b": None, "header": False, "d8": True},
+     "chunks": [[[1, 25, 0, 0, 20, 0], [2, 7, 0, 2, 1, 0], [0, 11, 0, 1, 3, 0]]], "label": "cli:cload_pairs:D8"},
+    {"fn": "load_coo", "widths": [[3, 3, 2], [4, 4], [5]], "opts": {"one_based": 0, "tril": "reflect", "ideal_b": None, "header": False, "d8": True},
+     "chunks": [[[1, 0, 0, 0, 5], [2, 3, 0, 0, 7], [5, 5, 0, 0, 1]]], "label": "cli:load_coo:D8"},
+    {"fn": "load_bg2", "widths": [[3, 3, 2], [4, 4], [5]], "opts": {"one_based": 0, "tril": "reflect", "ideal_b": None, "header": False, "d8": True},
+     "chunks": [[[0, 0, 3, 1, 4, 8], [2, 0, 5, 0, 3, 6]]], "values": [[3, 4]], "label": "cli:load_bg2:D8"},
     {"fn": "load_coo", "widths": [[3, 3, 2], [4, 4], [5]], "opts": {"one_based": 0, "tril": None, "ideal_b": None, "header": False},
      "chunks": [[[1, 0, 0, 0, 5], [0, 1, 0, 0, 7], [5, 5, 0, 0, 1]]], "label": "cli:load_coo:valid"},
 ]
